@@ -4,9 +4,15 @@ Model recipe (shared by the classic and the JAX side)::
 
     {"keys": [["a", na], ["b", nb]] | [["a", na]],      latent keys and sizes (standard normal prior)
      "nd": nd,                                            data size
-     "kind": "lin" | "exp" | "tanh" | "prod",            signal response, see `forward_np`
+     "kind": "lin" | "exp" | "tanh" | "prod",            signal response s(xi), see below
      "R": {"a": nd x na matrix, "b": ...},                dyadic response matrices (incl. rank-deficient)
+     "Ri": None | {"a": ..., "b": ...}, "datai": [nd],    imaginary parts: complex data, real parameters
      "var": [nd] noise variances, "data": [nd], "pos": {"a": [...], ...}}   expansion point
+
+    lin:  s = R_a xi_a (+ R_b xi_b)          exp:  s = R_a exp(xi_a / 2) (+ R_b xi_b)
+    tanh: s = R_a tanh(xi_a) (+ R_b xi_b)    prod: s = R_a (xi_a * xi_b) + R_b xi_b
+    Energy 1/2 xi^T xi + 1/2 Re (d - s)^H N^-1 (d - s): for complex data real and imaginary part of the noise
+    have variance `var` each, the metric is 1 + Re(J^H N^-1 J).
 
 The oracle is written in NumPy: the Jacobian J of the response at the expansion point in closed
 form, the posterior metric M = 1 + J^T N^-1 J restricted to the sampled (non point-estimated) keys and
@@ -80,29 +86,17 @@ def msizes(model):
     return {k: n for k, n in model["keys"]}
 
 
-def forward_np(model, x):
-    """x: dict key -> 1-D array; the response in NumPy (documentation of the model kinds)"""
-    R = {k: np.array(v, dtype=np.float64) for k, v in model["R"].items()}
-    kind = model["kind"]
-    two = len(model["keys"]) == 2
-    if kind == "lin":
-        out = R["a"] @ x["a"]
-    elif kind == "exp":
-        out = R["a"] @ np.exp(0.5 * x["a"])
-    elif kind == "tanh":
-        out = R["a"] @ np.tanh(x["a"])
-    elif kind == "prod":
-        out = R["a"] @ (x["a"] * x["b"])
-    else:
-        raise ValueError(kind)
-    if two:
-        out = out + R["b"] @ x["b"]
-    return out
+def cmat(model, k):
+    """(complex) response matrix of key k"""
+    R = np.array(model["R"][k], dtype=np.float64)
+    if model.get("Ri"):
+        return R + 1j * np.array(model["Ri"][k], dtype=np.float64)
+    return R
 
 
 def jac_np(model):
     """closed-form Jacobian blocks {key: nd x n_key} of the response at the expansion point"""
-    R = {k: np.array(v, dtype=np.float64) for k, v in model["R"].items()}
+    R = {k: cmat(model, k) for k in mkeys(model)}
     p = {k: np.array(v, dtype=np.float64) for k, v in model["pos"].items()}
     kind = model["kind"]
     J = {}
@@ -121,6 +115,16 @@ def jac_np(model):
     return J
 
 
+def jac_real(model, keys):
+    """real Jacobian (rows: real parts, then imaginary parts for complex data) and the matching N^-1 diagonal"""
+    J = jac_np(model)
+    Jl = np.concatenate([J[k] for k in keys], axis=1)
+    ninv = 1.0 / np.array(model["var"], dtype=np.float64)
+    if model.get("Ri"):
+        return np.concatenate([Jl.real, Jl.imag], axis=0), np.concatenate([ninv, ninv])
+    return Jl, ninv
+
+
 def layout(model):
     """offsets of the keys in the flat latent vector (sorted keys)"""
     ofs, o = {}, 0
@@ -134,22 +138,23 @@ def expected_cov(model, pe):
     """(C_full, M_liquid, liquid index list): posterior covariance at the expansion point on the full
     flat latent vector; rows/columns of point-estimated keys are zero"""
     ofs, n = layout(model)
-    J = jac_np(model)
     liquid = [k for k in sorted(mkeys(model)) if k not in pe]
     idx = [i for k in liquid for i in range(*ofs[k])]
-    Jl = np.concatenate([J[k] for k in liquid], axis=1)
-    Ninv = np.diag(1.0 / np.array(model["var"], dtype=np.float64))
-    M = np.eye(len(idx)) + Jl.T @ Ninv @ Jl
+    Jl, ninv = jac_real(model, liquid)
+    M = np.eye(len(idx)) + Jl.T @ (ninv[:, None] * Jl)
     C = np.zeros((n, n))
     C[np.ix_(idx, idx)] = np.linalg.inv(M)
     return C, M, idx
 
 
+def ndata_real(model):
+    return model["nd"] * (2 if model.get("Ri") else 1)
+
+
 def model_classes(model, pe):
-    J = jac_np(model)
-    Jl = np.concatenate([J[k] for k in sorted(J)], axis=1)
+    Jl, _ = jac_real(model, sorted(mkeys(model)))
     rank = int(np.linalg.matrix_rank(Jl))
-    cl = ["kind_" + model["kind"], f"keys_{len(model['keys'])}"]
+    cl = ["kind_" + model["kind"], f"keys_{len(model['keys'])}", "complex_data" if model.get("Ri") else "real_data"]
     nd, n = Jl.shape
     deficient = rank < min(nd, n)
     if deficient:
@@ -167,12 +172,12 @@ def model_classes(model, pe):
 # nifty.cl side
 # ------------------------------------------------------------------------------------------------
 class DenseOp(ift.LinearOperator):
-    """harness-defined response: explicit real matrix between two unstructured domains"""
+    """harness-defined response: explicit (real or complex) matrix between two unstructured domains"""
 
     def __init__(self, dom, tgt, M):
         self._domain = ift.DomainTuple.make(dom)
         self._target = ift.DomainTuple.make(tgt)
-        self._M = np.asarray(M, dtype=np.float64)
+        self._M = np.asarray(M)
         self._capability = self.TIMES | self.ADJOINT_TIMES
 
     def apply(self, x, mode):
@@ -180,7 +185,7 @@ class DenseOp(ift.LinearOperator):
         v = np.asarray(x.asnumpy())
         if mode == self.TIMES:
             return ift.makeField(self._target, self._M @ v)
-        return ift.makeField(self._domain, self._M.T @ v)
+        return ift.makeField(self._domain, self._M.conj().T @ v)
 
 
 def build_cl(model, field_layout):
@@ -189,7 +194,10 @@ def build_cl(model, field_layout):
     keys = sorted(sizes)
     tgt = ift.UnstructuredDomain(model["nd"])
     doms = {k: ift.DomainTuple.make(ift.UnstructuredDomain(sizes[k])) for k in keys}
-    R = {k: DenseOp(doms[k], tgt, np.array(model["R"][k], dtype=np.float64)) for k in keys}
+    R = {k: DenseOp(doms[k], tgt, cmat(model, k)) for k in keys}
+    if model.get("Ri"):
+        # real parameters, complex data: embed the real signal into the complex numbers (adjoint: real part)
+        R = {k: R[k] @ ift.Realizer(doms[k]).adjoint for k in keys}
     if field_layout:
         assert keys == ["a"]
         ident = ift.ScalingOperator(doms["a"], 1.0)
@@ -217,17 +225,28 @@ def build_cl(model, field_layout):
     return op, pos
 
 
+def _real(a, what):
+    a = np.asarray(a)
+    if np.iscomplexobj(a):
+        require(not np.any(a.imag), "complex_residual_for_real_parameter", f"{what}: max |Im| = {np.max(np.abs(a.imag))}")
+        a = a.real
+    return a.astype(np.float64)
+
+
 def cl_flat(f, keys):
     if isinstance(f, ift.MultiField):
-        return np.concatenate([np.asarray(f[k].asnumpy(), dtype=np.float64).reshape(-1) for k in keys])
-    return np.asarray(f.asnumpy(), dtype=np.float64).reshape(-1)
+        return np.concatenate([_real(f[k].asnumpy(), k).reshape(-1) for k in keys])
+    return _real(f.asnumpy(), "field").reshape(-1)
 
 
 def build_ham(model, field_layout):
     op, pos = build_cl(model, field_layout)
-    d = ift.makeField(op.target, np.array(model["data"], dtype=np.float64))
+    d = np.array(model["data"], dtype=np.float64)
+    if model.get("Ri"):
+        d = d + 1j * np.array(model["datai"], dtype=np.float64)
+    d = ift.makeField(op.target, d)
     N = ift.DiagonalOperator(ift.makeField(op.target, np.array(model["var"], dtype=np.float64)),
-                             sampling_dtype=np.float64)
+                             sampling_dtype=np.complex128 if model.get("Ri") else np.float64)
     lh = ift.GaussianEnergy(data=d, inverse_covariance=N.inverse) @ op
     ic = ift.GradientNormController(tol_abs_gradnorm=CG_TOL, iteration_limit=300)
     H = ift.StandardHamiltonian(lh, ic_samp=ic, prior_sampling_dtype=np.float64)
@@ -438,6 +457,7 @@ def check_cl_mc(rec):
 # ------------------------------------------------------------------------------------------------
 KD, KL, NDENSE = 5, 10, 2          # data basis keys, latent basis keys, dense keys
 KW = max(KD, KL)
+T_IM, T_LAT, T_ZERO, T_DENSE = KD, 2 * KD, 2 * KD + KL, 2 * KD + KL + 1      # offsets in the key table
 _JX = {}
 
 
@@ -455,27 +475,35 @@ def jx():
     from jax import random
     from jax.tree_util import tree_flatten, tree_unflatten
 
+    import logging
+
     import nifty.re as jft
     import nifty.re.evi as evi
 
-    nkeys = KD + KL + 1 + NDENSE
+    logging.getLogger("nifty.re.logger").setLevel(logging.CRITICAL)
+    # table rows: [0, KD) real data basis, [KD, 2KD) imaginary data basis, [2KD, 2KD+KL) latent basis,
+    # then the zero key and NDENSE dense keys
+    nkeys = T_DENSE + NDENSE
 
     def sample_key(i):
         return random.PRNGKey(771000 + i)
 
-    w_nll = np.zeros((nkeys, KW))
-    w_prr = np.zeros((nkeys, KW))
+    w_nll = np.zeros((nkeys, KW))      # real part of the white vector of the likelihood draw
+    w_nli = np.zeros((nkeys, KW))      # imaginary part (used for complex data only)
+    w_prr = np.zeros((nkeys, KW))      # white vector of the prior draw
     for i in range(KD):
         w_nll[i, i] = 1.0
+        w_nli[KD + i, i] = 1.0
     for j in range(KL):
-        w_prr[KD + j, j] = 1.0
+        w_prr[T_LAT + j, j] = 1.0
     for j in range(NDENSE):
-        w_nll[KD + KL + 1 + j] = _dense_row(j, 0)
-        w_prr[KD + KL + 1 + j] = _dense_row(j, 1)
+        w_nll[T_DENSE + j] = _dense_row(j, 0)
+        w_prr[T_DENSE + j] = _dense_row(j, 1)
+        w_nli[T_DENSE + j] = _dense_row(j, 2)
     sub = [np.asarray(random.split(sample_key(i), 2)) for i in range(nkeys)]
     tab_nll = jnp.asarray(np.stack([s[0] for s in sub]))
     tab_prr = jnp.asarray(np.stack([s[1] for s in sub]))
-    W_nll, W_prr = jnp.asarray(w_nll), jnp.asarray(w_prr)
+    W_nll, W_nli, W_prr = jnp.asarray(w_nll), jnp.asarray(w_nli), jnp.asarray(w_prr)
     state = {"calls": 0}
 
     def fake_random_like(key, primals, rng=None):
@@ -494,6 +522,7 @@ def jx():
                               "jax.random.split(key, 2): the interception does not fit nifty.re.evi any more")
         row = hn.astype(jnp.float64) @ W_nll + hp.astype(jnp.float64) @ W_prr
         row = jnp.where(ok, row, jnp.nan)
+        rowi = hn.astype(jnp.float64) @ W_nli
         leaves, struct = tree_flatten(primals)
         out, o = [], 0
         for lf in leaves:
@@ -501,7 +530,13 @@ def jx():
             sz = int(np.prod(shp, dtype=np.int64))
             if o + sz > KW:
                 raise T.TapeError("white-noise request larger than the table rows")
-            out.append(row[o:o + sz].reshape(shp).astype(lf.dtype))
+            if jnp.issubdtype(lf.dtype, jnp.complexfloating):
+                # convention of jax.random.normal for complex dtypes: real and imaginary part are
+                # independent with variance 1/2 each; (a, b) are the unit-variance tape coordinates
+                val = (row[o:o + sz] + 1j * rowi[o:o + sz]) * np.sqrt(0.5)
+            else:
+                val = row[o:o + sz]
+            out.append(val.reshape(shp).astype(lf.dtype))
             o += sz
         return tree_unflatten(struct, out)
 
@@ -517,19 +552,23 @@ def jx():
             evi.random_like = self.orig
             return False
 
-    _JX.update(jax=jax, jnp=jnp, random=random, jft=jft, evi=evi, sample_key=sample_key, w_nll=w_nll, w_prr=w_prr,
+    _JX.update(jax=jax, jnp=jnp, random=random, jft=jft, evi=evi, sample_key=sample_key, w_nll=w_nll, w_nli=w_nli, w_prr=w_prr,
                Patch=Patch, state=state, nkeys=nkeys)
     return _JX
 
 
-def re_keys(nd, nliq):
-    """table indices used for a model with nd data and nliq liquid latent dimensions, and the white
-    matrix W (n_keys x (nd + nliq)): row = (data part, latent part) of the prescribed white vector"""
+def re_keys(nd, nliq, cplx):
+    """table indices used for a model with nd (complex: nd + nd) data and nliq liquid latent dimensions,
+    the sample keys, the white matrix W (n_keys x nb): row = unit-variance tape coordinates (real data part,
+    [imaginary data part,] latent part) prescribed for that key, and nb = number of basis keys"""
     X = jx()
-    idx = list(range(nd)) + [KD + j for j in range(nliq)] + [KD + KL] + [KD + KL + 1 + j for j in range(NDENSE)]
-    W = np.concatenate([X["w_nll"][idx][:, :nd], X["w_prr"][idx][:, :nliq]], axis=1)
+    idx = list(range(nd)) + ([T_IM + i for i in range(nd)] if cplx else []) + [T_LAT + j for j in range(nliq)]
+    nb = len(idx)
+    idx += [T_ZERO] + [T_DENSE + j for j in range(NDENSE)]
+    W = np.concatenate([X["w_nll"][idx][:, :nd]] + ([X["w_nli"][idx][:, :nd]] if cplx else [])
+                       + [X["w_prr"][idx][:, :nliq]], axis=1)
     keys = X["jnp"].stack([X["sample_key"](i) for i in idx])
-    return idx, keys, W
+    return idx, keys, W, nb
 
 
 def build_re(model, cfg):
@@ -538,7 +577,7 @@ def build_re(model, cfg):
     jax, jnp, jft = X["jax"], X["jnp"], X["jft"]
     sizes = msizes(model)
     keys = sorted(sizes)
-    R = {k: jnp.asarray(np.array(model["R"][k], dtype=np.float64)) for k in keys}
+    R = {k: jnp.asarray(cmat(model, k)) for k in keys}
     kind = model["kind"]
     array_layout = bool(cfg.get("array"))
 
@@ -561,7 +600,10 @@ def build_re(model, cfg):
         return out
 
     var = jnp.asarray(np.array(model["var"], dtype=np.float64))
-    data = jnp.asarray(np.array(model["data"], dtype=np.float64))
+    data = np.array(model["data"], dtype=np.float64)
+    if model.get("Ri"):
+        data = data + 1j * np.array(model["datai"], dtype=np.float64)
+    data = jnp.asarray(data)
     noise = cfg.get("noise", "cov")
     kw = {}
     if noise in ("cov", "both"):
@@ -583,7 +625,7 @@ def build_re(model, cfg):
         t = tree.tree if isinstance(tree, jft.Vector) else tree
         parts = []
         for k in keys:
-            leaf = np.asarray(t if array_layout else t[k], dtype=np.float64)
+            leaf = _real(t if array_layout else t[k], k)
             try:
                 leaf = np.broadcast_to(leaf, tuple(lead) + (sizes[k],))
             except ValueError:
@@ -629,9 +671,8 @@ def _selftest_interception():
     X["selftest"] = True
 
 
-def _re_cov_oracle(Sres, W, C, idx_liq, nd, kind, tol=COV_TOL):
+def _re_cov_oracle(Sres, W, C, nb, kind, tol=COV_TOL):
     """Sres: (n_keys, n) residuals for the table keys (rows as in re_keys); W: prescribed white rows"""
-    nb = nd + len(idx_liq)
     require(np.all(np.isfinite(Sres)), "nonfinite_sample", kind)
     Sb = Sres[:nb].T                                      # n x (nd + nliq): sampling matrix
     zero = Sres[nb]
@@ -656,7 +697,7 @@ def check_re_linear(rec):
     C, M, idx_liq = expected_cov(model, pe)
     ofs, n = layout(model)
     nd = model["nd"]
-    idx, keys, W = re_keys(nd, len(idx_liq))
+    idx, keys, W, nb = re_keys(nd, len(idx_liq), bool(model.get("Ri")))
     classes, deficient = model_classes(model, pe)
     with X["Patch"]():
         c0 = X["state"]["calls"]
@@ -671,14 +712,13 @@ def check_re_linear(rec):
         dead = [i for i in range(n) if i not in idx_liq]
         require(not np.any(Sres[:, dead]), "point_estimate_residual_nonzero", f"max {np.max(np.abs(Sres[:, dead]))}"
                 if dead else "")
-        Sb = _re_cov_oracle(Sres, W, C, idx_liq, nd, "re_linear")
+        Sb = _re_cov_oracle(Sres, W, C, nb, "re_linear")
         # samples of the metric itself (from_inverse=False) are the input of the nonlinear update
         Mfull = np.zeros((n, n))
         Mfull[np.ix_(idx_liq, idx_liq)] = M
         met = np.stack([flat(jft.draw_linear_residual(lh, pos, k, from_inverse=False, point_estimates=pe_arg)[0])
                         for k in keys])
         mscale = max(1.0, float(np.max(np.abs(M))))
-        nb = nd + len(idx_liq)
         close(met[:nb].T @ met[:nb], Mfull, "re_metric_sample:covariance", tol=1e-10, scale=mscale)
         require(not np.any(met[nb]), "re_metric_sample:zero_noise_gives_nonzero_residual", "")
         # metric sample and inverse sample belong together: residual = M^-1 metric_sample
@@ -728,7 +768,7 @@ def check_re_driver(rec):
     C, M, idx_liq = expected_cov(model, pe)
     ofs, n = layout(model)
     nd = model["nd"]
-    idx, keys, W = re_keys(nd, len(idx_liq))
+    idx, keys, W, nb = re_keys(nd, len(idx_liq), bool(model.get("Ri")))
     rmap, minjit, jit, static = DRIVER_CFGS[cfg["driver"]]
     cgf = jft.conjugate_gradient.static_cg if static else jft.conjugate_gradient.cg
     dl_kw = dict(cg=cgf, cg_kwargs=CG_KW)
@@ -770,13 +810,17 @@ def check_re_driver(rec):
         close(s.reshape(nk, 2, n).mean(axis=1), np.broadcast_to(p_flat, (nk, n)),
               "driver:mirrored_average_is_not_expansion_point", tol=GEO_TOL if geo else 1e-13,
               scale=max(1.0, float(np.max(np.abs(s)))))
-        _re_cov_oracle(r[0::2], W, C, idx_liq, nd, "driver_geo" if geo else "driver", tol=GEO_TOL if geo else COV_TOL)
+        _re_cov_oracle(r[0::2], W, C, nb, "driver_geo" if geo else "driver", tol=GEO_TOL if geo else COV_TOL)
     # resampling: keys = jax.random.split(key, n); every pair must be the per-key linear residual
     if cfg.get("resample"):
         classes.append("resample")
         n_s = cfg["resample"]
         key = random.PRNGKey(cfg["seed"])
         ks = random.split(key, n_s)
+        # fresh likelihood object => fresh traces: the jitted samplers traced above have the table
+        # look-up baked in and are cached per (function, static likelihood structure)
+        lh, pos, flat = build_re(model, cfg)
+        vi = jft.OptimizeVI(lh, 1, residual_map=rmap, linear_minimizer_jit=minjit, jit=jit)
         smp2, _ = vi.draw_samples(jft.Samples(pos=pos, samples=None, keys=None), key=key,
                                   sample_mode="linear_resample", n_samples=n_s, point_estimates=pe_arg,
                                   draw_linear_kwargs=dl_kw)
@@ -801,13 +845,19 @@ def check_re_mc(rec):
     lh, pos, flat = build_re(model, cfg)
     pe = list(cfg["pe"])
     pe_arg = re_pe(model, cfg)
-    N = cfg["N"]
+    N, B = cfg["N"], cfg["batch"]
     vi = jft.OptimizeVI(lh, 1, residual_map="vmap", linear_minimizer_jit=True, jit=True)
-    smp, _ = vi.draw_samples(jft.Samples(pos=pos, samples=None, keys=None), key=random.PRNGKey(cfg["seed"]),
-                             sample_mode="linear_resample", n_samples=N, point_estimates=pe_arg,
-                             draw_linear_kwargs=dict(cg=jft.conjugate_gradient.static_cg, cg_kwargs=CG_KW))
-    require(len(smp) == 2 * N, "sample_count", f"{len(smp)} vs 2*{N}")
-    r = flat(smp.at(jft.zeros_like(pos)).samples, lead=(2 * N,))
+    zeros = jft.zeros_like(pos)
+    master = random.PRNGKey(cfg["seed"])
+    parts = []
+    # XLA's compile time grows with the vmapped batch size: draw in batches (one compilation)
+    for b in range(N // B):
+        smp, _ = vi.draw_samples(jft.Samples(pos=pos, samples=None, keys=None), key=random.fold_in(master, b),
+                                 sample_mode="linear_resample", n_samples=B, point_estimates=pe_arg,
+                                 draw_linear_kwargs=dict(cg=jft.conjugate_gradient.static_cg, cg_kwargs=CG_KW))
+        require(len(smp) == 2 * B, "sample_count", f"{len(smp)} vs 2*{B}")
+        parts.append(flat(smp.at(zeros).samples, lead=(2 * B,)))
+    r = np.concatenate(parts)
     require(np.array_equal(r[1::2], -r[0::2]), "mirror_pair_not_bitwise_negative", "Monte-Carlo run")
     frac = mc_oracle(r[0::2], model, pe, slice(None), "re_mc")
     classes, deficient = model_classes(model, pe)
@@ -840,7 +890,7 @@ def response(draw, nd, n):
 
 
 @st.composite
-def models(draw, linear_only=False, single_only=False, nmax=4, force_two=False):
+def models(draw, linear_only=False, single_only=False, nmax=4, force_two=False, allow_complex=True):
     two = False if single_only else (True if force_two else draw(st.booleans()))
     kinds = ["lin"] if linear_only else (["lin", "lin", "exp", "tanh", "prod", "prod"] if two
                                          else ["lin", "lin", "exp", "tanh"])
@@ -850,10 +900,14 @@ def models(draw, linear_only=False, single_only=False, nmax=4, force_two=False):
     nd = draw(st.integers(1, 5))
     keys = [["a", na]] + ([["b", nb]] if two else [])
     R = {k: draw(response(nd, m)) for k, m in keys}
+    cplx = allow_complex and draw(st.integers(0, 3)) == 0
+    Ri = {k: draw(response(nd, m)) for k, m in keys} if cplx else None
+    datai = draw(S.vec(nd, S.dyadic(-2.0, 2.0, 4))) if cplx else None
     var = draw(S.vec(nd, S.dyadic_nz(0.25, 4.0, 4, signed=False)))
     data = draw(S.vec(nd, S.dyadic(-2.0, 2.0, 4)))
     pos = {k: draw(S.vec(m, S.dyadic(-1.5, 1.5, 4))) for k, m in keys}
-    return {"keys": keys, "nd": nd, "kind": kind, "R": R, "var": var, "data": data, "pos": pos}
+    return {"keys": keys, "nd": nd, "kind": kind, "R": R, "Ri": Ri, "datai": datai, "var": var, "data": data,
+            "pos": pos}
 
 
 WDENSE = S.vec(24, S.dyadic(-2.0, 2.0, 4))
@@ -935,6 +989,7 @@ def re_mc_recipes(tier):
         model = draw(models(nmax=3))
         cfg = _re_cfg(draw, model, False)
         cfg["N"] = 4000 if tier == "quick" else 20000
+        cfg["batch"] = 250
         return {"model": model, "cfg": cfg}
     return rec()
 
